@@ -85,9 +85,10 @@ end Abra.Pratt
 
 namespace Abra.PatMatrix
 
-/-- **The exhaustiveness / usefulness recursion terminates** on every well-typed pattern matrix: the
-    measure `phi` (which accounts for or-pattern expansion and wildcard specialisation, both of which grow
-    the matrix) strictly decreases along every recursive call, so any fuel above it finishes the run. -/
+/-- **The exhaustiveness / usefulness recursion returns** on every well-typed pattern matrix (`rowsWT`) with any
+    fuel above the measure `phi env Ts rows`: `compute` is not out of fuel.  (That `phi` strictly decreases along
+    every recursive call, or-pattern expansion and wildcard specialisation included, is the content of
+    `AbraProofs/Lemmas/PatMatrixTerm.lean`, from which this is restated.) -/
 theorem C04_exhaustiveness_terminates {env : EnumEnv} (Ts : List Ty) (rows : List Row)
     (hwt : rowsWT env Ts rows) (fuel : Nat) (hf : phi env Ts rows < fuel) :
     (compute env fuel Ts rows).isSome = true :=
